@@ -119,6 +119,18 @@ check("C18", "model_checking",
       "Trusted: symbolic-name substitution, value projection. The st value grammar is exercised through the value table, not through arbitrary expressions.",
       "TLA+ spelling/expectation spec + TLC-enumerated replay of edit lists on the real parser/VM", "DESIGN.md section 4 C18")
 
+check("C10", "model_checking",
+      "spec/Codec.tla gives the document space an old or foreign producer can send - every tag (known, internal 20/21, unknown, missing, "
+      "string/null/float/negative) x every payload shape (absent, null, scalars, arrays, objects with wrong keys, right keys with wrong "
+      "types, nulls inside containers, unknown native names, nested documents) - and the well-formedness predicate (payload type promised "
+      "by the tag, recursively; no nil children; native functions callable).  TLC enumerates the space (depth 0 completely, containers "
+      "over every depth-0 document), the harness renders each to JSON, decodes it as a value and as a variable-map entry with the real "
+      "package, projects the result and runs a battery of 8 API calls and 36 scripts under recover; TLC (Trace_Codec) checks every "
+      "record: rejected, or well-formed and crash-free.  Damaged and truncated encoder output and recursion through restored functions "
+      "are added; a fatal crash of the process is attributed to its document.",
+      "Trusted: the JSON renderer and the projection of decoded values; TLC. Byte-level malformed JSON is only sampled.",
+      "TLA+ document-space enumeration (TLC) + replay through the real decoder + TLC trace validation of projected values and battery outcomes", "DESIGN.md section 4 C10")
+
 NOT_YET = "check under construction in this build phase (planned in DESIGN.md section 4); not yet claimed"
 
 m = {
